@@ -277,8 +277,12 @@ coap_resource_init(coap_str_const_t *uri_path, int flags) {
       uri_path = coap_new_str_const(null_path->s, null_path->length);
     }
 
-    if (uri_path)
-      r->uri_path = uri_path;
+    if (!uri_path) {
+      /* the copy of the path could not be allocated */
+      coap_free_type(COAP_RESOURCE, r);
+      return NULL;
+    }
+    r->uri_path = uri_path;
 
     r->flags = flags;
     r->observe = 2;
